@@ -1,7 +1,8 @@
 """C04 - comments, blank lines and whitespace never change what is measured.
 
 Domain : base files = canonical generated programs (all 7 languages) and the vendored corpus of real-world sources.
-         An insertion plan is 1..30 simultaneous edits at token-safe places: blank line, whitespace-only line,
+         A plan is 1..30 simultaneous edits at token-safe places: removal of an existing blank line or of a line that
+         holds nothing but one single-line comment, and insertions: blank line, whitespace-only line,
          comment-only line in every comment style of the language (#; //, /* */, multi-line /* */) at any
          indentation, trailing comment, trailing blanks/tabs; thorough adds every single safe boundary x every style
          for every corpus file, and the inverse direction (all trivia stripped from generated programs).
@@ -101,7 +102,31 @@ def safe_lines(lang, text):
                 boundaries.append(line)
                 if ok is True:
                     trailing.append(line)
-    res = (boundaries, trailing)
+    # removable lines: blank / whitespace-only lines and lines holding nothing but one single-line comment
+    removable = []
+    bset = set(boundaries)
+    line_kind = {}
+    for off, tt, val in lx.get_tokens_unprocessed(text):
+        if not val:
+            continue
+        first = text.count("\n", 0, off) + 1
+        ws = (tt is T.Text or tt is T.Whitespace) and val.isspace()
+        body = val[:-1] if val.endswith("\n") else val
+        n_inner = body.count("\n")
+        for ln in range(first, first + n_inner + 1):
+            if ws:
+                k = "ws"
+            elif tt in T.Comment and n_inner == 0 and tt not in T.Comment.Preproc and tt not in T.Comment.PreprocFile:
+                k = "comment"
+            else:
+                k = "code"
+            prevk = line_kind.get(ln)
+            line_kind[ln] = k if prevk is None or prevk == "ws" or (prevk == "comment" and k == "ws") else ("code" if k == "code" or prevk == "code" else "code" if (prevk == "comment" and k == "comment") else prevk)
+    nlines = text.count("\n")
+    for ln in range(1, nlines + 1):
+        if line_kind.get(ln, "ws") in ("ws", "comment") and ln in bset and (ln - 1) in bset:
+            removable.append(ln)
+    res = (boundaries, trailing, removable)
     if len(_SAFE_CACHE) > 64:
         _SAFE_CACHE.clear()
     _SAFE_CACHE[key] = res
@@ -123,9 +148,12 @@ def apply_plan(text, edits):
     lines = text.split("\n")  # lines[i-1] is line i; a trailing "" if text ends with "\n"
     ins = {}
     trail = {}
+    removed = set()
     for e in edits:
         if "after" in e:
             ins.setdefault(e["after"], []).extend(e["lines"])
+        elif "remove" in e:
+            removed.add(e["remove"])
         else:
             trail[e["trail"]] = trail.get(e["trail"], "") + e["text"]
     out = []
@@ -135,6 +163,9 @@ def apply_plan(text, edits):
     if 0 in ins:
         shifts.append((0, len(ins[0])))
     for i, content in enumerate(lines, 1):
+        if i in removed and i < len(lines):
+            shifts.append((i, -1))
+            continue
         out.append(content + trail.get(i, ""))
         if i in ins and i < len(lines):
             out.extend(ins[i])
@@ -260,14 +291,18 @@ def _inside(base, line):
 
 
 def draw_plan(draw, lang, text, max_edits=30):
-    boundaries, trailing = safe_lines(lang, text)
+    boundaries, trailing, removable = safe_lines(lang, text)
     r = _base(lang, text)
     name_lines = sorted({m[1] for m in r[1]} & set(trailing)) if r[0] == "ok" else []
     n = draw(st.integers(1, max_edits))
     edits = []
     styles = ["hash"] if lang == "Python" else ["line", "block", "mblock"]
     for _ in range(n):
-        kind = draw(st.sampled_from(["blank", "ws", "comment", "comment", "trail_comment", "trail_ws"]))
+        kind = draw(st.sampled_from(["blank", "ws", "comment", "comment", "trail_comment", "trail_ws", "remove"]))
+        if kind == "remove":
+            if removable:
+                edits.append({"remove": draw(st.sampled_from(removable)), "kind": "remove"})
+            continue
         if kind in ("blank", "ws", "comment"):
             after = draw(st.sampled_from(boundaries))
             if kind == "blank":
@@ -298,8 +333,16 @@ def draw_plan(draw, lang, text, max_edits=30):
                 continue
             seen.add(e["trail"])
         out.append(e)
-    # keep whitespace-only trailing edits before comment edits on the same line irrelevant: order does not matter for blanks
-    return out
+    # a removed line receives no other edit (and is removed once)
+    gone = set()
+    final = []
+    for e in out:
+        if "remove" in e:
+            if e["remove"] in gone:
+                continue
+            gone.add(e["remove"])
+        final.append(e)
+    return [e for e in final if not (("after" in e and e["after"] in gone) or ("trail" in e and e["trail"] in gone))]
 
 
 _CODE_CACHE = {}
@@ -348,8 +391,8 @@ def withhold_known(lang, text, edits, known):
         return edits, 0
     out, dropped = [], 0
     for e in edits:
-        if e["kind"] in ("comment", "trail_comment"):
-            line = e["after"] if "after" in e else e["trail"]
+        if e["kind"] in ("comment", "trail_comment", "remove"):
+            line = e["after"] if "after" in e else e["trail"] if "trail" in e else e["remove"] - 1
             if in_header_region(lang, text, line):
                 dropped += 1
                 continue
@@ -403,7 +446,7 @@ def gen(col, seed, n, lang, use_corpus):
         if base is None:
             col.label("base-not-analysable")
             return
-        nt = any("after" in e and _inside(base, e["after"]) for e in edits)
+        nt = any(("after" in e and _inside(base, e["after"])) or ("remove" in e and _inside(base, e["remove"])) for e in edits)
         kinds = {e["kind"] for e in edits}
         for k in kinds:
             col.label(f"edit:{k}")
@@ -430,8 +473,22 @@ def single_edits(col, lang, rel, stride, offset):
         col.label("base-not-analysable")
         return
     base = r[1]
-    boundaries, trailing = safe_lines(lang, text)
+    boundaries, trailing, removable = safe_lines(lang, text)
     styles = ["hash"] if lang == "Python" else ["line", "block", "mblock"]
+    n = nt = 0
+    for ri, line in enumerate(removable):
+        if ri % stride != offset:
+            continue
+        edits, dropped = withhold_known(lang, text, [{"remove": line, "kind": "remove"}], known)
+        col.excluded_known += dropped
+        if not edits:
+            continue
+        _, bad = check_plan(lang, text, edits)
+        n += 1
+        nt += _inside(base, line)
+        if bad:
+            col.fail({"lang": lang, "corpus": rel, "edits": edits}, bad[0], bad[1])
+    col.bulk(n, nt)
     variants = [("blank", [""]), ("ws", ["    "]), ("ws", ["\x0c"])] + [("comment", comment_line(lang, s, "x(y) {", "")) for s in styles]
     n = nt = 0
     for bi, after in enumerate(boundaries):
